@@ -841,18 +841,22 @@ def proj_msg(d):
 
 
 def T(text):
-    """A text inside an output: one big int (keeps the outputs of 10^4..10^5 cases in memory small)."""
-    return int.from_bytes(b"\x01" + text.encode("utf8", "surrogatepass"), "big")
+    """A text inside an output: its UTF-8 bytes packed 7 per int (keeps the outputs of 10^4..10^5 cases small)."""
+    b = text.encode("utf8", "surrogatepass")
+    return [len(b)] + [int.from_bytes(b[k:k + 7], "big") for k in range(0, len(b), 7)]
 
 
 def unT(n):
-    return n.to_bytes((n.bit_length() + 7) // 8, "big")[1:].decode("utf8", "surrogatepass")
+    size, out = n[0], b""
+    for k, x in enumerate(n[1:]):
+        out += x.to_bytes(min(7, size - 7 * k), "big")
+    return out.decode("utf8", "surrogatepass")
 
 
 def digest(p):
     """A projection that is only compared for equality: its SHA-256 as an int."""
     import hashlib
-    return int(hashlib.sha256(json.dumps(canon(p)).encode()).hexdigest(), 16)
+    return int(hashlib.sha256(json.dumps(canon(p)).encode()).hexdigest()[:15], 16)
 
 
 def res(f):
